@@ -97,7 +97,16 @@ def make_case(rng, i, tier):
         desc, (ps, ys, aa), _ = gen.intify_terms(desc, ps, ys, [[a]])
         a = aa[0][0]
         shape += "+int_tokens"
+        tt = rng.choice([None, "float"])
+        return {"id": i, "R": R, "shape": shape + ("+" + tt if tt else ""), "finite": finite, "cfg": desc, "ps": ps, "ys": ys, "a": a, "token_type": tt}
     return {"id": i, "R": R, "shape": shape, "finite": finite, "cfg": desc, "ps": ps, "ys": ys, "a": a}
+
+
+def corpus():
+    """known finding (known_findings.json): numpy-integer token ids + the tuple-named nonterminals of the derivative grammars —
+    `u == r.body[j]` in CFG.agenda compares a namedtuple with a numpy scalar, numpy broadcasts, `if` raises ValueError"""
+    g = {"S": "S", "V": [0, 1], "rules": [["1/8", "N3", [1]], ["3/4", "S", ["N3"]], ["1/8", "S", [0, "N3"]], ["3/16", "N3", []], ["1", "S", ["N3", 0]]]}
+    return [{"R": "Float", "shape": "corpus_numpy_tokens", "finite": True, "cfg": g, "ps": [[0]], "ys": [[1]], "a": 1, "token_type": "npint"}]
 
 
 def run(ctx):
@@ -107,7 +116,7 @@ def run(ctx):
     if ctx.get("replay"):
         cases = [f["case"] for f in ctx["replay"]["failing"] if "case" in f]
     else:
-        cases = [make_case(rng, i, tier) for i in range(n)]
+        cases = corpus() + [make_case(rng, i, tier) for i in range(n)]
     for i, c in enumerate(cases):
         c["id"] = i
     impl_res = ctx["run_impl"](cases, hashseeds, 120)
